@@ -37,6 +37,8 @@ CATALOGUE = {
     # 4th element: the invariants to violate (default: all of STD_INVS, shortest counterexample of any of them)
     "tqc_stale_votes": [("b", 0, 2, "Agreement")],
     "high_vote_keeps_older_same_number": [("b", 0, 3, "CertUnique")],
+    # liveness weakening: the target is the stuck-candidate predicate, the verdict comes from the good-period continuation (C06)
+    "backup_before_justification": [("b", 1, 2, "NoStuckCandidate")],
 }
 
 
